@@ -31,7 +31,7 @@ WK = 'circus.util:synchronized.real_decorator.wrapper'
 
 
 def check(run, ctx):
-    run.each(ctx, [r1, r2, r3, r4, r5, r6])
+    run.each(ctx, [r1, r2, r3, r4, r5, r6, r7])
 
 
 def r1(run, ctx):
@@ -305,3 +305,10 @@ def r6(run, ctx):
     txt = norm_text(init.node)
     run.check('R6', 'self._exclusive_running_command = None' in txt and
               'self._restarting = False' in txt, 'the slot starts free', init, init.node)
+
+
+def r7(run, ctx):
+    from rules import c02
+    run.share(ctx, c02.r3, 'R3', 'R7', 'no kill/stop/restart coroutine is started and dropped '
+              '(shared with C02 R3): the enclosing exclusive operation would complete - and free '
+              'the slot - while the dropped coroutine is still changing the process set')
